@@ -62,7 +62,7 @@ def inventory : List Entry := [
   ⟨"core.GunDeps.Log(*zap.Logger)", .opaque, fun _ => true⟩,
   ⟨"core.GunDeps.Shared(*grpc.SharedDeps)", .ro, fun c => c.grpc⟩,
   ⟨"core.GunDeps.Shared(*phttp.SharedDeps)", .ro, fun c => c.http⟩,
-  ⟨"grpc.Gun.Aggr(*c20lib.Aggr)", .opaque, fun c => c.grpc⟩,
+  ⟨"grpc.Gun.Aggr(*c11lib.Aggr)", .opaque, fun c => c.grpc⟩,
   ⟨"grpc.Gun.Services(map)", .ro, fun c => c.grpc⟩,
   ⟨"grpc.SharedDeps.clientPool(*clientpool.Pool[github.com/jhump/protoreflect/dynamic/grpcdynamic.Stub])", .sync [lockPoolI],
     fun c => c.kind == "grpcjson" && c.sharedClient⟩,
@@ -76,7 +76,7 @@ def inventory : List Entry := [
   ⟨"httpscenario.Scenario.VariableStorage(*vs.SourceStorage)", .ro, fun c => c.kind == "httpscen"⟩,
   ⟨"mp.NextIterator.gs(map)", .sync [lockGs], fun c => c.scen⟩,
   ⟨"mp.NextIterator.rnd(*rand.Rand)", .sync [lockRnd], fun c => c.scen⟩,
-  ⟨"netsample.aggregatorUnwrapper.Aggregator(*c20lib.Aggr)", .opaque, fun c => c.http || c.kind == "httpscen"⟩,
+  ⟨"netsample.aggregatorUnwrapper.Aggregator(*c11lib.Aggr)", .opaque, fun c => c.http || c.kind == "httpscen"⟩,
   ⟨"phttp.BaseGun.AnswLog(*zap.Logger)", .opaque, fun c => c.http || c.kind == "httpscen"⟩,
   ⟨"phttp.SharedDeps.clientPool(*clientpool.Pool[components/guns/http.Client])", .sync [lockPoolI], fun c => c.http && c.sharedClient⟩,
   ⟨"phttp.noRedirectClient.Transport(*http.Transport)", .opaque, fun c => c.http && c.sharedClient⟩,
@@ -137,16 +137,21 @@ def judgeAlias (tbl : List C11LockRow) (o : AliasObs) : String :=
   if o.guns != "distinct" then s!"fail:gun-shared:two instances got {o.guns} gun object"
   else if o.ammo == "same" then "fail:ammo-shared:two outstanding Acquire calls returned the same ammo object"
   else
-    match o.mutated.findSome? (fun l =>
-      match classOf l with
-      | some (.sync objs) => match judgeLocks tbl objs with
-                             | "ok" => none
-                             | v => some v
-      | some .ro => some s!"fail:shared-write:{l}"
-      | some .opaque => some s!"fail:shared-write:{l}"
-      | none => some s!"fail:shared-write:{l}") with
-    | some v => v
-    | none => if o.served != "yes" then "skip:inconclusive-not-served" else "ok"
+    -- a write to a unit of the shared definition first (schedule-independent witness), then the lock facts of the
+    -- units instances are allowed to write
+    match o.mutated.find? (fun l => match classOf l with
+                                    | some (.sync _) => false
+                                    | _ => true) with
+    | some l => s!"fail:shared-write:{l}"
+    | none =>
+      match o.mutated.findSome? (fun l =>
+        match classOf l with
+        | some (.sync objs) => match judgeLocks tbl objs with
+                               | "ok" => none
+                               | v => some v
+        | _ => none) with
+      | some v => v
+      | none => if o.served != "yes" then "skip:inconclusive-not-served" else "ok"
 
 structure GunsObs where
   created : Nat
